@@ -40,8 +40,17 @@ EXPLANATION = (
     "for both backends and both builders, on four hand-built scenarios and on pseudo-random terms with closed schemes "
     "(20 quick / 120 thorough). R17f: unoptimized_contraction evaluated on terms with exponents, deltas, symbols, "
     "spin yields one hyper-contraction whose operand list is the term's tensors/deltas exponent-many times (names and "
-    "indices aligned) with the requested target indices; divisions are refused. Also R16a/R16b/R16g (scheme shape and "
-    "closure, owned by C16), which the emitted program depends on.")
+    "indices aligned) with the requested target indices, and sums every index that is not a requested target index - "
+    "also one that occurs only once (external_indices); divisions are refused. R17h: exploit_perm_sym on expressions "
+    "that contain a contribution several times (duplicates up to contracted-index names): the returned classes "
+    "re-expand to the expression, no term twice (term worlds and permutation oracle of C10). Reference behaviour "
+    "after the repairs F35-F37, F41: exact numbers never equal floats (sympy >= 1.13; sqrt prefactors are emitted and "
+    "executed end to end), symbols with exponents that are not positive integers are refused with "
+    "NotImplementedError (table and end to end), targets given explicitly sum single-occurrence indices (hand-built "
+    "and pseudo-random non-Einstein terms, rule-side model of Contraction(..., external_indices)). A sum over the axes "
+    "of a single tensor has no libtensor expression and has to be refused. Also R16a/R16b/R16g (scheme shape and "
+    "closure, owned by C16) and R10a-c (conservation law of exploit_perm_sym, owned by C10), which the emitted "
+    "program depends on.")
 ASSUMPTIONS = [
     "optimize_contractions, exploit_perm_sym, term_memory_requirements and Obj.longname are black boxes here: "
     "generate_code is evaluated on valid schemes/symmetry classes built by the rule (C16 / C15 decide the builders)",
@@ -54,6 +63,8 @@ ASSUMPTIONS = [
     "label is not decided",
     "the text of the scaling comment (N^k: O^n V^m) is not decided, only that it is a one-line comment of the backend",
     "exception messages are not decided, only the exception class",
+    "libtensor, sum over the axes of a single tensor (sum_a A_ia -> i): the library refuses with AssertionError instead "
+    "of the documented NotImplementedError; both classes are accepted as refusal here (reported, not decided)",
 ]
 
 GC = "generate_code.generate_code:"
@@ -85,9 +96,10 @@ class SNum:
             return o
         if isinstance(o, (int, Fraction)) and not isinstance(o, bool):
             return SNum(o)
-        if isinstance(o, float) and o == int(o * 4) / 4:
-            return SNum(Fraction(o))
-        return None
+        return None               # sympy >= 1.13: an exact number never equals a float (Rational(1, 2) != 0.5)
+
+    def _num(self, o):
+        return o.value() if isinstance(o, SNum) else float(o)
 
     def value(self):
         return float(self.c) * math.sqrt(self.n) * (math.pi if self.other else 1.0)
@@ -103,16 +115,16 @@ class SNum:
         return hash((self.c, self.n, self.other))
 
     def __lt__(self, o):
-        return self.value() < self._coerce(o).value()
+        return self.value() < self._num(o)
 
     def __gt__(self, o):
-        return self.value() > self._coerce(o).value()
+        return self.value() > self._num(o)
 
     def __le__(self, o):
-        return self.value() <= self._coerce(o).value()
+        return self.value() <= self._num(o)
 
     def __ge__(self, o):
-        return self.value() >= self._coerce(o).value()
+        return self.value() >= self._num(o)
 
     def __mul__(self, o):
         o = self._coerce(o)
@@ -142,6 +154,11 @@ class SNum:
 
     def __int__(self):
         return int(self.value())
+
+    def __index__(self):
+        if self.n != 1 or self.other or self.c.denominator != 1:
+            raise TypeError(f"'{self.kind()}' object cannot be interpreted as an integer")
+        return int(self.c)
 
     def __float__(self):
         return self.value()
@@ -184,7 +201,7 @@ class SNum:
             return self.c.denominator
         if attr == "args":
             if k == "Pow":
-                return (self.n, Fraction(1, 2))
+                return (SNum(self.n), SNum(Fraction(1, 2)))
             if k == "Mul":
                 rest = SNum(1, self.n, self.other)
                 return (SNum(self.c), rest)
@@ -302,17 +319,19 @@ class Names:
         return self.cache[ident]
 
 
-def contraction(cname, ident, names, indices, term_target):
-    """A Contraction record; contracted/target by the documented split (target iff the index occurs once or is a
-    target index of the term; the order of ``term_target`` is adopted if the sets agree, else first occurrence with
-    occupied before virtual)."""
+def contraction(cname, ident, names, indices, term_target, external=None):
+    """A Contraction record; contracted/target by the documented split: an index is a target index of the contraction
+    iff it is a target index of the term, or it occurs once in the contraction and (``external`` given) also occurs on an
+    object of the term outside of the contraction; every other index is summed.  ``external`` None: every index that
+    occurs once is kept (documented default).  The order of ``term_target`` is adopted if the sets agree."""
     count = {}
     for ix in indices:
         for i in ix:
             count[i] = count.get(i, 0) + 1
     order = lambda i: ({"g": 0, "o": 1, "v": 2}[i.attrs["space"][0]], i.attrs["spin"], i.attrs["name"])
-    contracted = sorted((i for i, n in count.items() if n > 1 and i not in term_target), key=order)
-    target = sorted((i for i, n in count.items() if n == 1 or i in term_target), key=order)
+    keep = lambda i, n: i in term_target or (n == 1 and (external is None or i in external))
+    contracted = sorted((i for i, n in count.items() if not keep(i, n)), key=order)
+    target = sorted((i for i, n in count.items() if keep(i, n)), key=order)
     if sorted(term_target, key=order) == target:
         target = list(term_target)
     return Rec(CO + "Contraction", cname(ident), indices=tuple(indices), names=tuple(names), contracted=tuple(contracted),
@@ -353,10 +372,19 @@ def permutation(p, q):
     return PermRec("symmetry:Permutation", f"P_{p.label}{q.label}", _items=(p, q))
 
 
+def sympify_hook(sx, a, kw):
+    """sympy.sympify of a number: the number in the exact domain."""
+    if len(a) == 1 and isinstance(a[0], SNum):
+        return a[0]
+    if len(a) == 1 and isinstance(a[0], (int, Fraction)) and not isinstance(a[0], bool):
+        return SNum(a[0])
+    return NotImplemented
+
+
 def make_sx(ctx, what, hooks=None, **kw):
     hk = {"tensor_names": tensor_names_rec(), "fields": fields_hook,
           "S": Rec(None, "S", Half=SNum(Fraction(1, 2)), One=SNum(1), Zero=SNum(0), NegativeOne=SNum(-1)),
-          "term_memory_requirements": lambda sx, a, k: scaling_component(0, 0, 0, 0)}
+          "term_memory_requirements": lambda sx, a, k: scaling_component(0, 0, 0, 0), "sympify": sympify_hook}
     hk.update(hooks or {})
     return Symex(ctx.model, inline=lambda q: True, hooks=hk, what=what, **kw)
 
@@ -611,7 +639,7 @@ class CubeRoot(SNum):
 
     def sx_getattr(self, sx, attr, node):
         if attr == "args":
-            return (2, Fraction(1, 3))
+            return (SNum(2), SNum(Fraction(1, 3)))
         return super().sx_getattr(sx, attr, node)
 
 
@@ -651,6 +679,8 @@ def r17c(ctx):
 def obj_rec(w, name, indices, exponent, kind="tensor"):
     """One Obj of a term: a tensor / delta / symbol with an exponent."""
     sp = spaces_of(indices)
+    if kind == "symbol" and not isinstance(exponent, SNum):
+        exponent = SNum(exponent)           # x**n: the exponent is a sympy Integer / Rational
     classes = {"tensor": ("SymbolicTensor", "AntiSymmetricTensor", "TensorSymbol"), "delta": ("KroneckerDelta",),
                "symbol": ("Symbol",), "number": ()}[kind]
     base = Rec(None, f"{name}{''.join(i.label for i in indices)}", classes, name=name, idx=tuple(indices),
@@ -726,6 +756,19 @@ def r17d(ctx):
                           f"format_prefactor: the prefactor {pref}{''.join(f' * {s}^{e}' for s, e in symbols)} is emitted for {backend} as "
                           f"`{text}`, which " + (f"is not executable: {err}" if err else f"evaluates to {got} instead of {want}"), key=key)
     ctx.floor(rule, "prefactors executed", n, 40)
+    # a symbol in a denominator or under a root has no representation as repeated factor: refused, never dropped
+    for backend in ("einsum", "libtensor"):
+        for label, symbols in (("2/x", [("x", -1)]), ("2/x^2", [("x", -2)]), ("2 sqrt(x)", [("x", Fraction(1, 2))]),
+                               ("2 c/x", [("c", 1), ("x", -1)]), ("2 x^(-1/2)", [("x", Fraction(-1, 2))])):
+            for tensors in ([], [("A", (i, a), 1)]):
+                term = term_rec(w, SNum(2), symbols, tensors)
+                sx = make_sx(ctx, "format_prefactor")
+                outs = sx.run(fn, lambda: dict(term=term, backend=backend))
+                ctx.check(rule, fn, refused(outs), f"{backend}: {label} refused with NotImplementedError",
+                          f"format_prefactor({backend}): the prefactor {label}{' of a term with tensors' if tensors else ''} has a symbol with an "
+                          f"exponent that is not a positive integer; it has to be refused with NotImplementedError, but: "
+                          f"{[o.value if o.kind == 'return' else 'raises ' + str(o.exc) for o in outs][:2]}",
+                          key=f"symbol exponent {backend} {label}{' tensors' if tensors else ''}")
     # permutation operators
     ps = ctx.model.fn(GC + "format_perm_symmetry")
     i, j, a, b = w("ijab")
@@ -795,6 +838,8 @@ class Pipeline:
         self.tgt = tgt
         self.calls = []
         self.made = 0
+        self.refuse = opts.pop("refuse", None)      # (exception classes, why): the scenario has to be refused
+        self.refusal_reason = ""
         self.optimize = True
         self.expr = Rec("expr_container:Expr", "EXPR", terms=tuple(t for _, ts in classes for t in ts))
 
@@ -831,11 +876,32 @@ class Pipeline:
                 names, indices, tt = list(b["names"]), [tuple(ix) for ix in b["indices"]], tuple(b["term_target_indices"])
             except (TypeError, KeyError):
                 raise AnalysisError(f"C17: Contraction(...) built from {b}")
-            return contraction(self.cname, 5000 + self.made, names, indices, tt)
+            return contraction(self.cname, 5000 + self.made, names, indices, tt, ext_of(b))
         return {"exploit_perm_sym": rec("sort_expr:exploit_perm_sym", "exploit_perm_sym"),
                 "optimize_contractions": rec(OC + "optimize_contractions", "optimize_contractions"),
                 "unoptimized_contraction": rec(OC + "unoptimized_contraction", "unoptimized_contraction"),
                 "get_symbols": get_symbols, "Contraction": new_contraction}
+
+    def expected_refusal(self, backend, optimize):
+        """Exception classes generate_code has to refuse the scenario with (None: a program is expected)."""
+        if self.refuse:
+            self.refusal_reason = self.refuse[1]
+            return set(self.refuse[0])
+        if backend == "libtensor":
+            for _, ts in self.classes:
+                for t in ts:
+                    ops = term_operands(t)
+                    if not ops:
+                        continue
+                    if optimize:
+                        single = any(lt_single_sum(c.attrs["indices"], c.attrs["contracted"]) for c in self.schemes[id(t)])
+                    else:
+                        single = lt_single_sum([ix for _, ix in ops], [i for _, ix in ops for i in ix if i not in self.tgt])
+                    if single:
+                        # TODO(finding): the refusal is an AssertionError, not the documented NotImplementedError
+                        self.refusal_reason = "a sum over the axes of a single tensor (no libtensor expression)"
+                        return {"AssertionError", "NotImplementedError"}
+        return None
 
     def run(self, backend, optimize=True):
         self.calls = []
@@ -889,6 +955,22 @@ def pipelines(ctx, w, cname):
     # 4: an exponent: the only closed scheme is the hyper-contraction
     t9 = term_rec(w, SNum(Fraction(1, 4)), [], [("A", (i, a), 2), ("B", (a, b), 1)])
     g0 = contraction(cname, 60, ["A_ov", "A_ov", "B_vv"], [(i, a), (i, a), (a, b)], (i, b))
+    # 5: symbols in a denominator / under a root: refused by both backends (never emitted without the symbol)
+    u1 = term_rec(w, SNum(2), [("x", -1)], [])
+    u2 = term_rec(w, SNum(3), [("c", 1)], [])
+    out.append(("number 2/x + 3c", Pipeline(ctx, w, cname, "", None, [((), [u2, u1])], {}, (),
+                                             refuse=(("NotImplementedError",), "a symbol with the exponent -1 (2/x)"))))
+    u3 = term_rec(w, SNum(Fraction(1, 2)), [("x", Fraction(1, 2))], [("A", (i, a), 1), ("B", (i, a), 1)])
+    out.append(("sqrt(x) A_ia B_ia", Pipeline(ctx, w, cname, "", None, [((), [u3])], {id(u3): closed_scheme(cname, 70, term_operands(u3), ())}, (),
+                                               refuse=(("NotImplementedError",), "a symbol with the exponent 1/2"))))
+    # 6: targets given explicitly (not the Einstein convention): an index that occurs once and is not a target is summed
+    for lab, tens, tstr, tg in (("sum_a A_ia -> i", [("A", (i, a), 1)], "i", (i,)),
+                                ("sum_ab A_ia B_jb -> ji", [("A", (i, a), 1), ("B", (j, b), 1)], "j,i", (j, i)),
+                                ("sum_ia A_ia B_ijb -> jb", [("A", (i, a), 1), ("B", (i, j, b), 1)], "jb", (j, b)),
+                                ("A_ik B_kja C_jb -> ba", [("A", (i, k), 1), ("B", (k, j, a), 1), ("C", (j, b), 1)], "ba", (b, a)),
+                                ("sum_ijab A_ia B_jb -> number", [("A", (i, a), 1), ("B", (j, b), 1)], "", ())):
+        v = term_rec(w, SNum(Fraction(-3, 2)), [], tens)
+        out.append((lab, Pipeline(ctx, w, cname, tstr, None, [((), [v])], {id(v): closed_scheme(cname, 100 + 10 * len(out), term_operands(v), tg)}, tg)))
     out.append(("exponent", Pipeline(ctx, w, cname, "ib", None, [((), [t9])], {id(t9): [g0]}, (i, b),
                                      max_itmd_dim=7, max_n_simultaneous_contracted=5)))
     return out
@@ -905,6 +987,22 @@ def perm_token(ctx, p):
 
 def operator_of(sym):
     return [(1.0, [])] + [(float(f), [tuple(x.attrs["name"] for x in p.attrs["_items"]) for p in perms]) for perms, f in sym]
+
+
+def ext_of(bound):
+    """The external indices handed to Contraction(...) (None if not given)."""
+    e = bound.get("external_indices")
+    if e is None:
+        return None
+    try:
+        return tuple(e)
+    except TypeError:
+        raise AnalysisError(f"C17: Contraction(..., external_indices={e!r})")
+
+
+def lt_single_sum(operand_indices, contracted):
+    """libtensor has no expression for a sum over the axes of a single tensor: such a contraction is refused."""
+    return sum(1 for ix in operand_indices if ix) == 1 and bool(contracted)
 
 
 def closed_scheme(cname, ident, operands, tgt):
@@ -924,7 +1022,8 @@ def closed_scheme(cname, ident, operands, tgt):
             if not more:
                 break
             group = sorted(group + more)
-        c = contraction(cname, ident + len(scheme), [pool[g][0] for g in group], [pool[g][1] for g in group], tgt)
+        external = tuple(i for k in range(len(pool)) if k not in group for i in pool[k][1])
+        c = contraction(cname, ident + len(scheme), [pool[g][0] for g in group], [pool[g][1] for g in group], tgt, external)
         scheme.append(c)
         pool = [(c.attrs["contraction_name"], c.attrs["target"])] + [p for k, p in enumerate(pool) if k not in group]
         if len(pool) == 1:
@@ -932,7 +1031,8 @@ def closed_scheme(cname, ident, operands, tgt):
 
 
 def random_pipelines(ctx, w, cname, count, seed=17):
-    """Pseudo-random terms (2-4 tensors, 0-3 target indices, 1-3 summed indices, exponents, eri/fock blocks, symbols,
+    """Pseudo-random terms (2-4 tensors, 0-3 target indices, 1-3 summed indices, 0-2 indices that occur once and
+    are summed, exponents, eri/fock blocks, symbols,
     rational and sqrt prefactors, permutation classes over target pairs) with a closed scheme each."""
     import os
     import random
@@ -956,6 +1056,10 @@ def random_pipelines(ctx, w, cname, count, seed=17):
             for i in summed:
                 for pos in rnd.sample(range(ntens), rnd.choice((2, 2, 3)) if ntens > 2 else 2):
                     slots[pos].append(i)
+            # targets are given explicitly: an index may also occur once without being a target (summed over one axis)
+            singles = rnd.sample(pool[nt + ns:], rnd.randint(1, 2)) if rnd.random() < 0.4 else []
+            for i in singles:
+                slots[rnd.randrange(ntens)].append(i)
             tensors = []
             for pos, ix in enumerate(slots):
                 if not ix:
@@ -976,7 +1080,7 @@ def random_pipelines(ctx, w, cname, count, seed=17):
                 for i in ix:
                     cnt[i] = cnt.get(i, 0) + e
             if any(cnt.get(i, 0) < 2 for i in summed) or any(i not in cnt for i in tgt) \
-                    or any(n_ == 1 for i, n_ in cnt.items() if i not in tgt):
+                    or any(n_ == 1 for i, n_ in cnt.items() if i not in tgt and i not in singles):
                 continue
             symbols = rnd.choice(([], [], [("c", 1)], [("c", 2), ("z", 1)]))
             t = term_rec(w, rnd.choice(PREFACTORS), symbols, tensors)
@@ -1024,6 +1128,13 @@ def check_pipeline(ctx, rule, fn, label, pl):
         key = f"{label} {backend}{'' if optimize else ' unoptimised'}"
         n += 1
         outs = pl.run(backend, optimize)
+        exp = pl.expected_refusal(backend, optimize)
+        if exp:
+            ok = bool(outs) and all(o.kind == "raise" and o.exc in exp for o in outs)
+            ctx.check(rule, fn, ok, f"{key}: refused ({' / '.join(sorted(exp))})",
+                      f"generate_code[{key}]: {pl.refusal_reason} has to be refused with {' or '.join(sorted(exp))}, but: "
+                      f"{[o.value if o.kind == 'return' else 'raises ' + str(o.exc) for o in outs][:2]}", key=f"program {key}")
+            continue
         text, why = concrete(outs)
         if text is None:
             ctx.bad(rule, fn, f"generate_code[{key}] {why}", key=f"program {key}")
@@ -1118,7 +1229,11 @@ def r17f(ctx):
              ("A_ia B_jb", term_rec(w, SNum(1), [], [("A", (i, a), 1), ("B", (j, b), 1)]), "iajb", None, (i, a, j, b)),
              ("A_ia", term_rec(w, SNum(1), [], [("A", (i, a), 1)]), "ai", None, (a, i)),
              ("spin labelled A_ia B_ia", term_rec(w, SNum(1), [], [("A", w("ia", "ab"), 1), ("B", w("ia", "ab"), 1)]), "ai", "ba",
-              tuple(reversed(w("ia", "ab"))))]
+              tuple(reversed(w("ia", "ab")))),
+             # targets given explicitly: every other index is summed, also one that occurs only once
+             ("sum_a A_ia", term_rec(w, SNum(1), [], [("A", (i, a), 1)]), "i", None, (i,)),
+             ("sum_ab A_ia B_jb", term_rec(w, SNum(1), [], [("A", (i, a), 1), ("B", (j, b), 1)]), "ji", None, (j, i)),
+             ("sum_ija A_ia B_j", term_rec(w, SNum(3), [], [("A", (i, a), 1), ("B", (j,), 1)]), "", None, ())]
     for label, term, tstr, spin, tgt in cases:
         made = []
 
@@ -1132,6 +1247,7 @@ def r17f(ctx):
             b_ = sx.bind(ctx.model.fn(CO + "Contraction.__init__"), [None] + list(a_), kw, fill_defaults=True)
             made.append(b_)
             return Rec(CO + "Contraction", f"contraction{len(made)}", **{k: v for k, v in b_.items() if k != "self"})
+        cname = Names(ctx.model)
         sx = make_sx(ctx, "unoptimized_contraction", hooks={"get_symbols": get_symbols, "Contraction": new_contraction})
         outs = sx.run(fn, lambda: dict(term=term, target_indices=tstr, target_spin=spin))
         key = f"unoptimized {label}"
@@ -1153,6 +1269,17 @@ def r17f(ctx):
         tt = b_.get("term_target_indices")
         ctx.check(rule, fn, isinstance(tt, (tuple, list)) and tuple(tt) == tgt, f"{label}: requested target indices {tstr}",
                   f"unoptimized_contraction({label}): term target indices {tt} instead of {[x.label for x in tgt]}", key=key + " target")
+        # the hyper-contraction sums every index that is not a requested target index (also one that occurs once)
+        try:
+            c = contraction(cname, 1, list(b_["names"]), [tuple(ix) for ix in b_["indices"]], tuple(tt), ext_of(b_))
+            summed = sorted(x.label for x in c.attrs["contracted"])
+        except (TypeError, KeyError):
+            summed = None
+        want_s = sorted({x.label for o in term.attrs["objects"] for x in o.attrs["idx"] if x not in tgt})
+        ctx.check(rule, fn, summed == want_s, f"{label}: the contraction sums {want_s}",
+                  f"unoptimized_contraction({label}, targets {tstr or 'none'}): the contraction built with external_indices="
+                  f"{b_.get('external_indices')!r} sums {summed}, but every index that is not a target index has to be summed: {want_s}",
+                  key=key + " summed")
     # refusals
     bad = term_rec(w, SNum(1), [], [("x", (i, a), -1)])
     sx = make_sx(ctx, "unoptimized_contraction", hooks={"get_symbols": lambda sx, a_, kw: list(w(a_[0]))})
@@ -1191,8 +1318,60 @@ def r17g(ctx):
     ctx.floor(rule, "delta/tensor name pairs", n, 10)
 
 
+def r17h(ctx):
+    """The symmetry classes generate_code prints ("Apply (1 +- P) to:") for expressions that contain the same
+    contribution more than once (duplicates up to the names of contracted indices, the normal state of raw results):
+    re-expanding the classes exploit_perm_sym returns gives the expression, no term twice.  Evaluated with the abstract
+    term worlds of C10 (terms t_k = coefficient * monomial, permutation oracle)."""
+    rule = "R17h"
+    from . import c10
+    fn = ctx.model.fn("sort_expr:exploit_perm_sym")
+    X, Zt = c10.X, c10.Z
+    m_ij, m_ji = (X("a", "i"), Zt("b", "j")), (X("a", "j"), Zt("b", "i"))
+    worlds = [
+        ("X_ij - X_ji - X_ji", [(1, m_ij), (-1, m_ji), (-1, m_ji)], {("ij",): -1}, True),
+        ("X_ij + X_ij - X_ji", [(1, m_ij), (1, m_ij), (-1, m_ji)], {("ij",): -1}, True),
+        ("X_ij - X_ji - X_ji + X_ij", [(1, m_ij), (-1, m_ji), (-1, m_ji), (1, m_ij)], {("ij",): -1}, True),
+        ("X_ij + X_ji + X_ji (symmetric)", [(1, m_ij), (1, m_ji), (1, m_ji)], {("ij",): 1}, False),
+        ("X_ij - X_ji - X_ji - X_ji", [(1, m_ij), (-1, m_ji), (-1, m_ji), (-1, m_ji)], {("ij",): -1}, True),
+    ]
+    n = 0
+    for note, terms, symm, anti in worlds:
+        w = c10.World(f"dup{n}", terms)
+        scen = c10._ExploitScen(w, symm, target="ijab")
+        what = f"exploit_perm_sym[{note}]"
+        outs = c10._run_exploit(ctx, scen, lambda: dict(expr=scen.expr(), antisymmetric_result_tensor=anti), what)
+        o = c10.one_return(ctx, rule, fn, outs, what, key=f"duplicates {note} shape")
+        n += 1
+        if o is None or not isinstance(o.value, dict):
+            if o is not None:
+                ctx.bad(rule, fn, f"{what}: does not return the dict of classes", key=f"duplicates {note} return")
+            continue
+        total, ok = {}, True
+        for key, val in o.value.items():
+            parts = c10._parts_of(val)
+            if parts is None or not isinstance(key, tuple):
+                ok = False
+                ctx.bad(rule, fn, f"{what}: class {show(key)} is not a plain sum of terms: {show(val)[:200]}", key=f"duplicates {note} part")
+                continue
+            for i, c in parts.items():
+                total = c10.lin_add(total, w.term(i), c)
+                for pf in key:
+                    perms, f = pf if isinstance(pf, tuple) and len(pf) == 2 else (None, None)
+                    if perms in symm:
+                        total = c10.lin_add(total, w.permuted(i, perms), c * f)
+                    else:
+                        ok = False
+        diff = c10.lin_add(total, w.total(), -1)
+        ctx.check(rule, fn, ok and total == w.total(), f"{what}: the classes re-expand to the expression",
+                  f"{what}: applying the printed operators to the returned classes "
+                  f"{ {show(k): show(v) for k, v in o.value.items()} } does not give the {len(terms)} input terms back "
+                  f"(difference {c10._show_lin(diff)}): a contribution is emitted twice or lost", key=f"duplicates {note}")
+    ctx.floor(rule, "expressions with duplicate terms", n, 5)
+
+
 def run(ctx):
-    for r, f in (("R17a", r17a), ("R17b", r17b), ("R17c", r17c), ("R17d", r17d), ("R17e", r17e), ("R17f", r17f), ("R17g", r17g)):
+    for r, f in (("R17a", r17a), ("R17b", r17b), ("R17c", r17c), ("R17d", r17d), ("R17e", r17e), ("R17f", r17f), ("R17g", r17g), ("R17h", r17h)):
         if ctx.want(r):
             f(ctx)
     # the "Apply (1 +- P..) to:" operators come from exploit_perm_sym: its conservation law (R10a/R10b/R10c of C10)
